@@ -4,7 +4,7 @@ use super::m2::{self, Msg};
 use crate::common::tok::Tok;
 
 #[derive(Clone, Debug, PartialEq)]
-pub enum MutKind { InsertUnknown, InsertKnown, Dup, Swap, Delete, Corrupt, AppendUnknown, AppendKnown, OverRepeat }
+pub enum MutKind { InsertUnknown, InsertKnown, Dup, Swap, Delete, Corrupt, AppendUnknown, AppendKnown, OverRepeat, BlankLine }
 
 impl MutKind {
     pub fn clause(&self) -> &'static str {
@@ -17,6 +17,7 @@ impl MutKind {
             MutKind::Corrupt => "dropped-invalid",
             MutKind::AppendUnknown | MutKind::AppendKnown => "dropped-trailing",
             MutKind::OverRepeat => "dropped-over-repeat",
+            MutKind::BlankLine => "absorbed-after-blank-line",
         }
     }
 }
@@ -67,6 +68,11 @@ pub fn single_mutations(base: &[Tok], alphabet: &[Tok], with_inserts: bool) -> V
         if p + 1 < n && base[p] != base[p + 1] {
             let mut t = base.to_vec(); t.swap(p, p + 1);
             out.push(Mutant { kind: MutKind::Swap, toks: t, at: Some(p), tag: base[p + 1].tag.clone(), desc: format!("swap({p},{})", p + 1) });
+        }
+        // blank(p): an empty line between field p-1 and field p (the tokens stay the same)
+        if p > 0 {
+            let mut t = base.to_vec(); t[p - 1].content.push('\n');
+            out.push(Mutant { kind: MutKind::BlankLine, toks: t, at: Some(p), tag: base[p].tag.clone(), desc: format!("blank-line-before({p})") });
         }
         // corrupt(p, k)
         for (name, bad) in corrupt_candidates(&base[p].content) {
